@@ -104,7 +104,12 @@ func runSCTP(id int, c *sctpCase, mode string, dp *dict.Parser) sctpLine {
 		mu.Lock()
 		l.Delivered = append(l.Delivered, d)
 		mu.Unlock()
-		m.Answer(2001).WriteTo(dc)
+		// answers with and without a Result-Code (the form used with Experimental-Result)
+		rc := uint32(2001)
+		if k%2 == 0 {
+			rc = 0
+		}
+		m.Answer(rc).WriteTo(dc)
 		got <- struct{}{}
 	})
 	stop := make(chan struct{})
@@ -141,9 +146,16 @@ func runSCTP(id int, c *sctpCase, mode string, dp *dict.Parser) sctpLine {
 		}
 	}
 	deadline := time.After(3 * time.Second)
-	for n := 0; n < total; n++ {
+	tick := time.NewTicker(5 * time.Millisecond)
+	defer tick.Stop()
+	for n := 0; n < total; {
 		select {
 		case <-got:
+			n++
+		case <-tick.C:
+			if as.Closed() { // the reader loop gave up: nothing more will be delivered
+				n = total
+			}
 		case <-deadline:
 			n = total
 		}
@@ -279,7 +291,7 @@ func SCTPAnswer(a Args) error {
 					mw.SetWriterStream(3)
 				}
 			}
-			m.Answer(2001).WriteTo(dc)
+			m.Answer(uint32(m.Header.EndToEndID % 2 * 2001)).WriteTo(dc)
 			done <- struct{}{}
 		})
 		conn := diam.NewSCTPConnVerif(as)
@@ -296,7 +308,7 @@ func SCTPAnswer(a Args) error {
 				}
 				as.WaitReaderBlocked(time.Second)
 				id++
-				l := ansLine{Ev: "answer", ID: id, Via: "sctp", Req: ansHdr{Flags: 0xC0, Cmd: abs.B3(abs.VCmd), App: abs.B4(abs.VApp), HbH: abs.B4(h), E2E: abs.B4(e)}, RC: 2001, Stream: int(stream),
+				l := ansLine{Ev: "answer", ID: id, Via: "sctp", Req: ansHdr{Flags: 0xC0, Cmd: abs.B3(abs.VCmd), App: abs.B4(abs.VApp), HbH: abs.B4(h), E2E: abs.B4(e)}, RC: int(e % 2 * 2001), Stream: int(stream),
 					Ans: ansObs{Hdr: ansHdr{Cmd: []int{0, 0, 0}, App: []int{0, 0, 0, 0}, HbH: []int{0, 0, 0, 0}, E2E: []int{0, 0, 0, 0}}, First: ansFirst{Sem: []int{}}, Stream: -1}}
 				if o := as.Out(); len(o) > nout {
 					msgs, _ := splitMsgs(o[nout].Data)
